@@ -137,4 +137,17 @@ CLAIMED = {
                 "convergence orders for non-polynomial densities are not decided.",
         "technique": "canonical-form weight extraction + exact rational moment identities; structural selection/rebuild rules",
     },
+    "C07": {
+        "text": "Definitions behind the reported parameter uncertainties as formula-shape and bookkeeping rules on the source: covariance = 2 x errordef x inverse "
+                "Hessian in the generic adapter and the two inverse relations in the iminuit adapter (canonical-form equality, factors cancel to the identity); "
+                "fixed parameters are removed and re-inserted with one and the same index expression, the Hessian is inverted on the free sub-block and "
+                "symmetrised, the scipy adapter unpacks with the index arrays it packed with; correlation = cov / outer(sigma, sigma) on the free sub-block, "
+                "symmetric errors = sqrt(diag(cov)); asymmetric errors are cost cuts at minimum + 1 measured from the optimum, the cut function is cost - "
+                "target with the parameter pinned and the rest re-minimised, contour levels are minimum + sigma^2; error band = sqrt(p^T C p) with one mask "
+                "for derivatives and covariance; argument-slot rule (F1) on 594 resolved call sites of the minimizer / fitter / profiler / xy classes.",
+        "note": "That the Hessian is the Hessian of the actual cost, that the backend's profile/contour points are converged, and all numerical values are "
+                "not decided. Several bookkeeping rules match normalised statement text of the anchor functions; a rewrite of those functions shows up as a "
+                "failed obligation and needs re-triage.",
+        "technique": "canonical-form formula comparison + index-expression agreement + argument-slot rule over resolved call sites",
+    },
 }
